@@ -233,6 +233,9 @@ def sym_slice_list(I, obj, sl):
 
 
 def subscript_model(I, obj, idx):
+    from . import models_ext2 as X
+    if isinstance(obj, X.StatResult):
+        return obj.getitem(idx)
     return NotImplemented
 
 
